@@ -726,7 +726,7 @@ func vrfC10ClientScript(h *vrfCli, rng *rand.Rand, d *vrfC10Desc) {
 				}
 			case "after-goaway":
 				// the client closes the connection once it is idle after a GOAWAY: late, and not in every session
-				if goneAway || !late || len(h.reqs) < 3 {
+				if goneAway || !late {
 					continue
 				}
 			}
